@@ -3,6 +3,8 @@
 Explicit-state exploration (mc.explore) of add_sheet / add_table / rename histories on real documents
 against ordered lists of names; at EVERY state every integer index in [-2n, 2n] and every pool name
 (and the existing names) is looked up on every collection; save+reopen probe at every distinct state.
+Alphabets (SPECS): mixed pools, per-kind names closed under case variants, generated-looking names, and
+names on which str.lower() and str.casefold() differ (tablesuni / sheetsuni).
 """
 from __future__ import annotations
 
